@@ -117,6 +117,51 @@ func runC20(c *Ctx) {
 				return (bin.Op == token.LSS && l.Pol && k <= tableLen) || (bin.Op == token.GEQ && !l.Pol && k <= tableLen) || (bin.Op == token.LEQ && l.Pol && k < tableLen)
 			})
 		}
+		// an in-range code always wakes the waiters: from where the code is known to be in range no return is reachable
+		// without the Cond.Broadcast call (a try-lock that gives up, a "nobody can be waiting" shortcut)
+		if fn == bcastFn {
+			var barrier ssa.Instruction
+			for _, call := range w.callsInDeep(fn) {
+				if condOpName(w, fn, call) == "(*sync.Cond).Broadcast" {
+					barrier = call.(ssa.Instruction)
+					if barrier.Parent() != fn {
+						barrier = nil
+						if sites := w.sitesIn(fn, call.Parent()); len(sites) == 1 {
+							if si, ok := sites[0].(ssa.Instruction); ok && si.Parent() == fn {
+								barrier = si
+							}
+						}
+					}
+				}
+			}
+			if barrier != nil {
+				skipped := ""
+				for _, b := range fn.Blocks {
+					if !inRange(b) || len(b.Instrs) == 0 {
+						continue
+					}
+					entry := false
+					for _, p := range b.Preds {
+						if !inRange(p) {
+							entry = true
+						}
+					}
+					if !entry {
+						continue
+					}
+					reach := ReachableAvoiding(b.Instrs[0], map[ssa.Instruction]bool{barrier: true})
+					for _, r := range liveReturns(fn) {
+						if fn.Recover != nil && r.Block() == fn.Recover {
+							continue
+						}
+						if reach(r) {
+							skipped = w.Pos(r.Pos())
+						}
+					}
+				}
+				c.Check(skipped == "", "R2.cond", name+"|an in-range code always broadcasts", w.Pos(barrier.Pos()), "no return is reachable from the in-range edge without Cond.Broadcast", "for a supported code the operation can return (at "+skipped+") without calling Cond.Broadcast: a request that arrives at that moment does not release the clients waiting for its code")
+			}
+		}
 		for _, r := range liveReturns(fn) {
 			okNil := len(r.Results) > 0
 			if !okNil {
